@@ -26,6 +26,7 @@ enum Place {
     End,
 }
 use Place::*;
+mod runall;
 
 /// order everywhere: excl_line, excl_start, excl_stop, excl_br_line, excl_br_start, excl_br_stop
 struct PatSet {
@@ -1544,9 +1545,11 @@ pub fn run(rep: &mut Report) {
             evaluate(rep, &ctx, &buf, "exh");
         }
     }
+    runall::run(rep);
 }
 
 pub fn replay(rep: &mut Report, case: &serde_json::Value) {
+    if runall::replay(rep, case) { return; }
     let ctx = ctx_new(rep);
     match case_from_json(case) {
         Some(c) => evaluate(rep, &ctx, &[c], "replay"),
